@@ -33,6 +33,9 @@ type obs struct {
 	// jump cases: the element whose predecessor the iterator was moved to, and what one step yielded
 	JumpTarget int64  `json:"jump_target,omitempty"`
 	JumpGot    string `json:"jump_got,omitempty"`
+	// alias cases: the start element the iterator was given and the skipped element the step began at
+	JumpStart string `json:"jump_start,omitempty"`
+	JumpVia   string `json:"jump_via,omitempty"`
 }
 
 // newIter calls the real constructor; a panic becomes an error text (the property demands an error value)
@@ -167,6 +170,57 @@ func main() {
 					}
 					o.Count = 1
 					w.Put(o)
+				}
+			}
+		}
+		// elements that agree with the start element in their low bits: the walk ends when it is back AT its start, not
+		// at an element that looks like it in a machine word. The start is set to k (every in-range element can be drawn
+		// as the start), the position to the predecessor of y = k + m*2^b (y in the group, y != k); the step must yield the
+		// first in-range element of y, y*G', y*G'^2, ... unless k itself comes first.
+		for _, n := range append(sizes, 1<<31+11, 3<<30, 1<<32-61, 40000, 70000, 1<<24+5) {
+			if n < 2 {
+				continue
+			}
+			for _, k := range []int64{1, 2, 10, 60, n, n - 1, n/2 + 1} {
+				for _, b := range []uint{8, 16, 24, 31, 32} {
+					for _, m := range []int64{1, -1} {
+						o := obs{N: n, Seed: 32452843 + n, K: 1, Class: "jump", Walk: true}
+						rand.Seed(o.Seed)
+						it, kind := newIter(n)
+						if kind != "" || k < 1 || k > n {
+							continue
+						}
+						P, G := it.P(), it.G()
+						y := big.NewInt(k + m<<b)
+						if y.Sign() <= 0 || y.Cmp(P) >= 0 {
+							continue
+						}
+						start := big.NewInt(k)
+						// expected: first element of y, y*G', ... that is in range; none when the start comes first
+						z, lim := new(big.Int).Set(y), big.NewInt(n)
+						steps := 0
+						for z.Cmp(lim) > 0 && steps < 1<<20 {
+							z.Mul(z, G).Mod(z, P)
+							steps++
+						}
+						if z.Cmp(start) == 0 || z.Cmp(lim) > 0 {
+							continue
+						}
+						o.P, o.G, o.StartI = P.String(), G.String(), start.String()
+						o.JumpStart, o.JumpVia = start.String(), y.String()
+						it.SetStart(start)
+						pred := new(big.Int).Mul(y, new(big.Int).ModInverse(G, P))
+						it.SetI(pred.Mod(pred, P))
+						o.JumpTarget = z.Int64()
+						if it.Next() {
+							o.Outs = []int64{it.Int().Int64()}
+							o.JumpGot = it.Int().String()
+						} else {
+							o.JumpGot = "end"
+						}
+						o.Count = 1
+						w.Put(o)
+					}
 				}
 			}
 		}
